@@ -8,9 +8,12 @@ only = set(sys.argv[1:])
 def run(d):
     pid = os.path.basename(os.path.dirname(d)).split("-")[1]
     name = os.path.basename(d)
-    if pid.endswith("x"):      # a second pair of seeds for the same property: C, D
-        pid = pid[:-1]
-        name = {"A": "C", "B": "D"}[name]
+    # further pairs of seeds for the same property: suffix x -> C, D; y -> E, F; z -> G, H
+    for suf, mp in (("x", {"A": "C", "B": "D"}), ("y", {"A": "E", "B": "F"}), ("z", {"A": "G", "B": "H"})):
+        if pid.endswith(suf):
+            pid = pid[:-1]
+            name = mp[name]
+            break
     sid = "%s-%s" % (pid, name)
     if only and sid not in only and pid not in only:
         return sid, None
